@@ -95,8 +95,9 @@ func init() {
 		Batches: []Batch{
 			{World: "ilv", Profile: "c05-static", Quick: 1500, Thor: 60000, PerProc: 250, FaultFree: true},
 			{World: "ilv", Profile: "c05-reconf", Quick: 3000, Thor: 120000, PerProc: 250},
+			{World: "gw", Profile: "c05h-exits", Quick: 120, Thor: 6000, PerProc: 1},
 		},
-		Rule: "each run = drawn workload (2-4 request threads doing GetOrDefault/TryAcquire/Release exactly like the dispatcher, one configuration thread issuing Sync with resizes, type changes, delete/re-add; bystander schema and cluster) under one drawn statement-level schedule; distinct = distinct trace hash; non-trivial = operations overlapped AND at least one request was refused (the bound was reached)",
+		Rule: "each run = drawn workload (2-4 request threads doing GetOrDefault/TryAcquire/Release exactly like the dispatcher, one configuration thread issuing Sync with resizes, type changes, delete/re-add; bystander schema and cluster) under one drawn statement-level schedule; distinct = distinct trace hash; non-trivial = operations overlapped AND at least one request was refused (the bound was reached). Profile c05h-exits (gw world): real HTTP requests under a max-in-flight policy ending as upstream success, upstream 5xx, reset, truncated body (reverse-proxy abort path), no ready endpoint, client abort while the stub holds the response, interleaved with resizes and bystander schema/cluster traffic; after draining exactly M concurrent probes must be forwarded and the M+1-th get 429",
 		Real: []string{"pkg/flowcontrols (UpstreamLimiter, syncLocalFlowControls), pkg/flowcontrols/remote (FlowControlCache, localWrapper, meterWrapper), pkg/flowcontrols/flowcontrol, github.com/zoumo/golib/lock/maxinflight atomicTokenBucket — all yield-instrumented copies of the current tree", "pkg/flowcontrols/util Meter (background statistics goroutines, uninstrumented, real time)"},
 		Stub: []string{"request/configuration threads, the cooperative scheduler"},
 		Assume: []string{
@@ -111,8 +112,9 @@ func init() {
 		Title: "Round-robin: ready endpoints of a policy share its traffic evenly",
 		Batches: []Batch{
 			{World: "ilv", Profile: "c14-rr", Quick: 3000, Thor: 100000, PerProc: 250, FaultFree: true},
+			{World: "gw", Profile: "c14h-http", Quick: 100, Thor: 5000, PerProc: 1, FaultFree: true},
 		},
-		Rule: "each run = drawn cluster (1-5 endpoints, explicit subset in drawn order or all endpoints with tape-permuted map order), 1-3 concurrent picker threads of the measured policy, 0-2 other pickers over the same endpoints (second policy, PickOne as used by authentication), 1-3 stretches with a readiness change in between, under a drawn statement-level schedule of Pop(); distinct = distinct trace hash; non-trivial = at least 4 measured picks over at least 2 endpoints",
+		Rule: "each run = drawn cluster (1-5 endpoints, explicit subset in drawn order or all endpoints with tape-permuted map order), 1-3 concurrent picker threads of the measured policy, 0-2 other pickers over the same endpoints (second policy, PickOne as used by authentication), 1-3 stretches with a readiness change in between, under a drawn statement-level schedule of Pop(); distinct = distinct trace hash; non-trivial = at least 4 measured picks over at least 2 endpoints. Profile c14h-http (gw world): sequential proxied requests, most of them token-authenticated (authentication picks an endpoint for every request), every window checked",
 		Real: []string{"pkg/clusters ClusterInfo (CreateClusterInfo, Sync, MatchAttributes, PickOne, endpointPickStrategy.Pop yield-instrumented), EndpointInfo status"},
 		Stub: []string{"picker threads; endpoint health set directly through EndpointInfo.UpdateStatus (no probes in this world)"},
 		Assume: []string{
@@ -128,8 +130,9 @@ func init() {
 		Batches: []Batch{
 			{World: "tb", Profile: "c06-steady", Quick: 600, Thor: 40000, PerProc: 50, FaultFree: true},
 			{World: "tb", Profile: "c06-reconf", Quick: 400, Thor: 20000, PerProc: 50},
+			{World: "gw", Profile: "c06h-http", Quick: 100, Thor: 5000, PerProc: 1, FaultFree: true},
 		},
-		Rule: "each run = drawn (qps, burst>=qps) and a drawn arrival process of 20-400 calls on the fake clock (same-instant bursts, exact k/qps gaps +-1ns, micro/milli/second pauses up to 2 minutes; reconf profile: resizes ending a stretch); every pair of admissions of a stretch is checked against burst+qps*T, every idle period against min(burst, floor(qps*t)); distinct = distinct trace hash; non-trivial = some calls admitted and some refused",
+		Rule: "each run = drawn (qps, burst>=qps) and a drawn arrival process of 20-400 calls on the fake clock (same-instant bursts, exact k/qps gaps +-1ns, micro/milli/second pauses up to 2 minutes; reconf profile: resizes ending a stretch); every pair of admissions of a stretch is checked against burst+qps*T, every idle period against min(burst, floor(qps*t)); distinct = distinct trace hash; non-trivial = some calls admitted and some refused. Profile c06h-http (gw world): the same bounds observed through HTTP, refused <=> 429 Status and never forwarded",
 		Real: []string{"pkg/flowcontrols UpstreamLimiter + remote.FlowControlCache/localWrapper/meterWrapper + flowcontrol.resizeableTokenBucket + client-go token bucket (golang.org/x/time/rate) reading the bubble clock"},
 		Stub: []string{"arrival process (driver), fake clock (testing/synctest)"},
 		Assume: []string{
